@@ -62,6 +62,8 @@ type hist struct {
 	txSnap  [][]reflect.Value
 	txErr   bool // a statement failed inside the transaction: PostgreSQL has aborted it
 	txCalls int
+	lastErr error // error of the last generated call
+	extraHeld int
 }
 
 type violation struct{ clause, detail string }
@@ -128,11 +130,21 @@ func (h *hist) call(name string, f reflect.Value, args ...reflect.Value) ([]refl
 			outs = outs[:n-1]
 		}
 	}
+	h.lastErr = err
 	if h.tx != nil {
 		h.txCalls++
 		if err != nil && err != sql.ErrNoRows {
 			h.txErr = true
 		}
+	}
+	// a call that has returned holds no connection (besides the open
+	// transaction's): a result set left open keeps its connection out of the pool
+	held := h.extraHeld // (a transaction the harness itself opened around this call)
+	if h.tx != nil {
+		held = 1
+	}
+	if n := h.sdb.Stats().InUse; n > held && h.viol == nil {
+		h.fail("connection_leaked", "%s returned (err=%v) but %d connection(s) of the pool are still in use (%d expected): a result set was not closed; with a bounded pool the next call blocks for ever", name, err, n, held)
 	}
 	return outs, err
 }
@@ -295,7 +307,7 @@ func (h *hist) begin() {
 	}
 	tx, err := h.sdb.Begin()
 	if err != nil {
-		if h.faulted() {
+		if h.faultedAny() {
 			return
 		}
 		kernel.Harnessf("begin: %v", err)
@@ -331,7 +343,7 @@ func (h *hist) end(commit bool) {
 	if commit {
 		err := tx.Commit()
 		h.note("COMMIT -> %v", err)
-		if h.faulted() {
+		if h.faultedAny() {
 			return
 		}
 		if err != nil {
@@ -346,7 +358,7 @@ func (h *hist) end(commit bool) {
 	}
 	err := tx.Rollback()
 	h.note("ROLLBACK -> %v", err)
-	if h.faulted() {
+	if h.faultedAny() {
 		return
 	}
 	restore()
@@ -394,7 +406,23 @@ func (h *hist) note(format string, a ...any) {
 
 // faulted reports (and consumes) whether a driver fault fired during the
 // call just made: such a call is not judged, the model is resynchronised.
-func (h *hist) faulted() bool {
+func (h *hist) faulted() bool { return h.faultedErr(h.lastErr) }
+
+var errSomeFault = fmt.Errorf("a fault fired")
+
+// faultedAny is for the harness' own Begin / Commit / Rollback: whatever fired, the step is abandoned.
+func (h *hist) faultedAny() bool { return h.faultedErr(errSomeFault) }
+
+// faultedErr: a driver fault that fired during a call excuses an error, and
+// only that: the call may fail, it may not return wrong data. A call that
+// returns no error although a fault fired (a retried connection, or an error
+// that was swallowed) is judged like any other.
+func (h *hist) faultedErr(err error) bool {
+	if h.srv.FaultedSinceReset() && err == nil && h.tx == nil {
+		h.srv.ResetFaultFlag()
+		h.out.Probe("fault_without_error:call_judged")
+		return false
+	}
 	if h.srv.FaultedSinceReset() {
 		h.srv.ResetFaultFlag()
 		if h.tx != nil {
